@@ -63,7 +63,13 @@ func verifHarnessC15() {
 	verifAssert(err == nil, "C15.open-err")
 	m := &vSymModel{}
 	kb := make([]byte, 2)
+	// bigv: the value buffer is longer than a (scaled) block, so a kept Get result may be a multi-chunk value
+	// that was reassembled in a pooled buffer
+	bigv := verifParam("bigv")
 	vb := make([]byte, 3)
+	if bigv > 3 {
+		vb = make([]byte, bigv)
+	}
 	type kept struct{ got, want []byte }
 	var returned []kept
 	for step := 0; step < K; step++ {
@@ -71,6 +77,9 @@ func verifHarnessC15() {
 		verifFill(vb, "v")
 		kl := 1 + verifChoice("kl", 2)
 		vl := 2 * verifChoice("vl", 2)
+		if bigv > 3 && verifChoice("vbig", 2) == 1 {
+			vl = bigv
+		}
 		key, val := kb[:kl], vb[:vl]
 		nops := 4
 		if verifParam("nobatch") == 1 {
